@@ -14,12 +14,13 @@ class DomainMappingEval(EvalContract):
     Spec (C01, C16, C19): the node's entry is one of the values `_apply_mapping_` yields for the child's entry
     (MapRel); in condition position its truth is bool(value) xor _invert_ (C03)."""
     qual = 'symbolic:DomainMapping._evaluate__'
+    uses_position = True
     cls = 'DomainMapping'
     props = ('C01', 'C03', 'C16', 'C19', 'C02')
 
     def shape_facts(self, n):
         c = Z.f_child(n)
-        return child_shape(n, c) + [z3.Not(Z.cond_pos(c)), Z.is_value(c), Z.is_value(n)]
+        return child_shape(n, c) + [z3.Not(Z.cond_pos(c)), Z.is_value(c), Z.is_value(n), z3.Not(Z.truth_node(n))]
 
     def children(self, n):
         return [Z.f_child(n)]
@@ -27,11 +28,13 @@ class DomainMappingEval(EvalContract):
     def den(self, n, rho):
         return z3.Xor(Z.truthy(Z.hv_value(z3.Select(rho, Z.nid(n)))), Z.inv(n))
 
-    def good(self, n, m):
+    def value_child(self, n, c):
+        return True
+
+    def own(self, n, m):
         c = Z.f_child(n)
-        return z3.And(Z.good_row(c, m),
-                      z3.Implies(m.contains(Z.nid(n)),
-                                 z3.And(m.contains(Z.nid(c)), MapRel(n, m.get(Z.nid(c)), m.get(Z.nid(n))))))
+        return z3.Implies(m.contains(Z.nid(n)),
+                          z3.And(m.contains(Z.nid(c)), MapRel(n, m.get(Z.nid(c)), m.get(Z.nid(n)))))
 
 
 CONTRACTS = [DomainMappingEval]
@@ -54,19 +57,21 @@ class ComparatorEval(EvalContract):
         l, r = Z.f_left(n), Z.f_right(n)
         return (child_shape(n, l) + child_shape(n, r) + tree_shape(l, r) +
                 [z3.Not(Z.cond_pos(l)), z3.Not(Z.cond_pos(r)), Z.is_value(l), Z.is_value(r), Z.is_value(n),
-                 Z.cond_pos(n)])   # T2: comparators stand in condition position
+                 Z.truth_node(n)])   # a comparator always filters by its own truth
 
     def den(self, n, rho):
         l, r = Z.f_left(n), Z.f_right(n)
         return Z.opapp(Z.optag(n), Z.hv_value(z3.Select(rho, Z.nid(l))), Z.hv_value(z3.Select(rho, Z.nid(r))))
 
-    def good(self, n, m):
+    def value_child(self, n, c):
+        return True
+
+    def own(self, n, m):
         l, r = Z.f_left(n), Z.f_right(n)
         res = Z.boolval(Z.opapp(Z.optag(n), Z.hv_value(m.get(Z.nid(l))), Z.hv_value(m.get(Z.nid(r)))))
-        return z3.And(Z.good_row(l, m), Z.good_row(r, m),
-                      z3.Implies(m.contains(Z.nid(n)),
-                                 z3.And(m.contains(Z.nid(l)), m.contains(Z.nid(r)),
-                                        m.get(Z.nid(n)) == Z.mkhv(res, Z.objid(res)))))
+        return z3.Implies(m.contains(Z.nid(n)),
+                          z3.And(m.contains(Z.nid(l)), m.contains(Z.nid(r)),
+                                 m.get(Z.nid(n)) == Z.mkhv(res, Z.objid(res))))
 
 
 CONTRACTS.append(ComparatorEval)
@@ -86,13 +91,10 @@ class ANDEval(EvalContract):
     def shape_facts(self, n):
         l, r = Z.f_left(n), Z.f_right(n)
         return (child_shape(n, l) + child_shape(n, r) + tree_shape(l, r) +
-                [Z.cond_pos(l), Z.cond_pos(r), Z.cond_pos(n), z3.Not(Z.is_value(n))])
+                [Z.cond_pos(l), Z.cond_pos(r), Z.truth_node(n), z3.Not(Z.is_value(n))])
 
     def den(self, n, rho):
         return z3.And(Z.Den(Z.f_left(n), rho), Z.Den(Z.f_right(n), rho))
-
-    def good(self, n, m):
-        return z3.And(Z.good_row(Z.f_left(n), m), Z.good_row(Z.f_right(n), m))
 
 
 class ElseIfEval(EvalContract):
@@ -108,13 +110,10 @@ class ElseIfEval(EvalContract):
     def shape_facts(self, n):
         l, r = Z.f_left(n), Z.f_right(n)
         return (child_shape(n, l) + child_shape(n, r) + tree_shape(l, r) +
-                [Z.cond_pos(l), Z.cond_pos(r), Z.cond_pos(n), z3.Not(Z.is_value(n))])
+                [Z.cond_pos(l), Z.cond_pos(r), Z.truth_node(n), z3.Not(Z.is_value(n))])
 
     def den(self, n, rho):
         return z3.Or(Z.Den(Z.f_left(n), rho), Z.Den(Z.f_right(n), rho))
-
-    def good(self, n, m):
-        return z3.And(Z.good_row(Z.f_left(n), m), Z.good_row(Z.f_right(n), m))
 
     def loop_invariant(self, eng, st, ordinal, iterated):
         if ordinal == 1 and 'any_left' in st.locals:
@@ -123,3 +122,57 @@ class ElseIfEval(EvalContract):
 
 
 CONTRACTS += [ANDEval, ElseIfEval]
+
+
+from eqlvc.libmodel import isa, str_const  # noqa: E402
+
+dom_truthy = z3.Function('dom_truthy', Z.Node, Z.B)     # bool(variable._domain_)
+
+
+class VariablePlainEval(EvalContract):
+    """symbolic.Variable._evaluate__ for a plain variable over an explicitly supplied, non-empty domain
+    (no keyword constraints, not inferred, not a predicate).  Spec: it enumerates exactly Dom(x) (C01/C02), or
+    passes the incoming binding on when it is already bound."""
+    qual = 'symbolic:Variable._evaluate__'
+    uses_position = False     # a plain variable's flag is constantly False, so the position test has no effect
+    cls = 'Variable'
+    props = ('C01', 'C02', 'C07')
+    is_leaf = True
+    trusted = ("HashedIterable.__iter__ delivers exactly Dom(x) (contract in hashed_data contracts)",
+               "class invariant: a plain variable never writes its own _is_false_ (scan of symbolic.Variable)")
+
+    def shape_facts(self, n):
+        return [Z.is_value(n), dom_truthy(n), z3.Not(Z.truth_node(n))]
+
+    def setup(self, eng):
+        sts = super().setup(eng)
+        for st in sts:
+            n = st.ghost['self']
+            st.assume(z3.Not(z3.Select(st.fields['is_false'], n)))
+        return sts
+
+    def den(self, n, rho):
+        return z3.BoolVal(True)
+
+    def own(self, n, m):
+        return z3.Implies(m.contains(Z.nid(n)), Z.indom(n, m.get(Z.nid(n))))
+
+    def getattr(self, eng, st, recv, name):
+        if isinstance(recv, ZV) and recv.ty == 'node' and recv.t.eq(st.ghost['self']):
+            if name == '_domain_':
+                return [(st, Obj('domain', {'of': recv.t}))]
+            if name in ('_is_inferred_', '_evaluating_kwargs_expression_'):
+                return [(st, C(False))]
+            if name in ('_kwargs_expression_', '_predicate_type_'):
+                return [(st, C(None))]
+            if name == '_child_vars_':
+                return [(st, Lst([]))]
+        return super().getattr(eng, st, recv, name)
+
+    def obj_truth(self, eng, st, v):
+        if v.kind == 'domain':
+            return dom_truthy(v.data['of'])
+        return None
+
+
+CONTRACTS += [VariablePlainEval]
